@@ -699,6 +699,18 @@ impl World {
         let in_conf = m.in_conflict();
         for u in m.get_all_objects() {
             let dump = m.verif_tree_dump(&u).unwrap_or_default();
+            // C19: the identifier of a revision with a parent is index(parent)+1, its own digest, and the first seven
+            // hex digits of the SHA-256 of the parent's identifier - recomputed here for every recorded revision
+            for (rev, par, _) in &dump {
+                if let Some(p) = par {
+                    let pidx: u64 = p.split('-').next().and_then(|i| i.parse().ok()).unwrap_or(0);
+                    let dg = rev.splitn(2, '-').nth(1).unwrap_or("").rsplitn(2, '_').last().unwrap_or("");
+                    let want = format!("{}-{}_{}", pidx + 1, dg, &digest_string(p)[..7]);
+                    if &want != rev {
+                        fails.push(("C19", format!("revision {} of {} with parent {} is not the identifier determined by its digest and its parent ({})", rev, u, p, want)));
+                    }
+                }
+            }
             let (leafs, winner) = independent_leafs(&dump);
             let w = m.get_winner(&u).ok();
             if w != winner {
@@ -841,6 +853,44 @@ impl World {
         let expect = add_ids(doc, true);
         // C04 quantifies over documents whose tracked objects have unique identifiers (explicit or derived)
         let well_formed = crate::gen::ids_unique(doc);
+        // C16: the version now stored for every flattened array of the document (the winner of its descriptor)
+        // reconstructs - from the stored bytes, with the harness' own patch code - to exactly the submitted order,
+        // whether or not the array is in conflict
+        if well_formed && res.is_ok() {
+            fn arrays_of_doc(v: &Value, out: &mut Vec<(String, Vec<String>)>) {
+                match v {
+                    Value::Object(o) => {
+                        let owner = o.get("_id").and_then(|x| x.as_str()).unwrap_or("").to_string();
+                        for (k, c) in o {
+                            if k.ends_with(FLAT) {
+                                if let Value::Array(a) = c {
+                                    if a.iter().all(|e| e.get("_id").and_then(|x| x.as_str()).is_some()) {
+                                        let ids = a.iter().map(|e| e["_id"].as_str().unwrap().to_string()).collect();
+                                        out.push((format!("^{}@{}", owner, k), ids));
+                                    }
+                                }
+                                arrays_of_doc(c, out);
+                            }
+                        }
+                    }
+                    Value::Array(a) => a.iter().for_each(|c| arrays_of_doc(c, out)),
+                    _ => {}
+                }
+            }
+            let mut arrs = vec![];
+            arrays_of_doc(&expect, &mut arrs);
+            let bodies = stored_bodies(m, &self.reps[r].be.snapshot());
+            for (desc, ids) in arrs {
+                if let Ok(w) = m.get_winner(&desc) {
+                    let dump = m.verif_tree_dump(&desc).unwrap_or_default();
+                    if let Some(order) = leaf_order(&bodies, &desc, &w, &dump) {
+                        if order != ids {
+                            fails.push(("C16", format!("the version {} stored for array {} reconstructs to {:?}, submitted {:?}", w, desc, order, ids)));
+                        }
+                    }
+                }
+            }
+        }
         if !well_formed {
             self.stat("update_with_duplicate_identifiers");
         } else if arr_conf.is_empty() {
@@ -1255,6 +1305,7 @@ impl World {
                             let fp = fresh_obs_perm(&self.reps[r].be.snapshot(), 0x5151 ^ self.op_index as u64);
                             if fp != f {
                                 fails.push(("C01", format!("a fresh replica differs when storage lists the same items in another order: {}", first_diff(&f, &fp))));
+                                fails.push(("C18", format!("a fresh replica differs when storage lists the same items in another order: {}", first_diff(&f, &fp))));
                             }
                         }
                     }
@@ -2365,6 +2416,7 @@ impl World {
                 let fp = fresh_obs_perm(&union, perm);
                 if fp != f {
                     fails.push(("C01", format!("a fresh replica differs when storage lists the same items in another order (perm {}): {}", perm, first_diff(&f, &fp))));
+                    fails.push(("C18", format!("a fresh replica differs when storage lists the same items in another order (perm {}): {}", perm, first_diff(&f, &fp))));
                     break;
                 }
                 *self.stats.entry("fresh_permuted_listing".into()).or_insert(0) += 1;
